@@ -154,9 +154,7 @@ def c15_sequence(rec, rng, kind, start, length, case):
                     V("add-auto:channel-already-in-use", f"assigned {ch[-1]}, in use {used}"); return
                 shadow.append((ch[-1], it))
                 continue
-            rec.count("c15:auto-add-refused(not judged)")
-            if not isinstance(err, ValueError):
-                V("add-auto:raises-non-ValueError", f"{type(err).__name__}: {err}"); return
+            rec.count("c15:auto-add-refused(not judged)")   # neither the refusal nor its exception type is pinned down
         elif r < 0.55:  # add, explicit channel
             it = _mk_item(rng, kind, n)
             taken = bool(used) and rng.random() < 0.4
@@ -724,9 +722,9 @@ def _c18_probe(rec, rng, kind, blk, labels, k, V):
             pass
         except Exception as e:
             V("unsupported-key-wrong-exception", f"[{bad!r}] raised {type(e).__name__}, not TypeError"); return False
-        try:
-            bad in blk
-            V("unsupported-membership-accepted", f"({bad!r} in block) returned"); return False
+        try:   # membership of an object of an unsupported type: TypeError today; plain False would be equally coherent
+            if bad in blk:
+                V("unsupported-membership-true", f"({bad!r} in block) is True"); return False
         except TypeError:
             pass
         except Exception as e:
